@@ -621,6 +621,8 @@ def run(rep, tier):
     # the shape-matching rules on the container code are decided together with the exploration of the same functions
     for r_ in ('E2.map-pairing', 'E2.append-capacity', 'E2.fresh-map-null'):
         rep.corroborate(r_, 'E6.containers')
+    for pre_ in ('C12.a:', 'C12.b:', 'C12.c:'):
+        rep.corroborate_floor(pre_, 'E6.containers')
     rep.trust('clang 14 front end', 'std::multimap emplace/erase semantics')
     rep.assumptions += [
         'decides capacity-before-store, strictly increasing growth, map maintenance pairing (incl. key ownership) and null map of fresh blocks, for both allocator kinds; the map comparator (min-length compare, tie on length) uses an unsigned memcmp-like three-way compare on every path',
